@@ -114,6 +114,11 @@ of_status_t	of_2d_parity_release_codec_instance (of_2d_parity_cb_t*	ofcb)
 			}
 			of_free(ofcb->tab_const_term_of_equ);
 		}
+		if (ofcb->tmp_tab_symbols != NULL)
+		{
+			of_free (ofcb->tmp_tab_symbols);
+			ofcb->tmp_tab_symbols = NULL;
+		}
 	}
 #endif
 
@@ -218,8 +223,12 @@ of_status_t	of_2d_parity_set_fec_parameters (of_2d_parity_cb_t*	ofcb,
 				of_calloc (ofcb->nb_repair_symbols, sizeof (UINT16));
 		ofcb->tab_nb_enc_symbols_per_equ = (UINT16*)
 				of_calloc (ofcb->nb_repair_symbols, sizeof (UINT16));
+		/* scratch table of the ML decoder (Gaussian elimination) */
+		ofcb->tmp_tab_symbols = (void**)
+				of_calloc (ofcb->nb_total_symbols, sizeof (void*));
 		if (ofcb->tab_nb_unknown_symbols == NULL || ofcb->tab_const_term_of_equ == NULL ||
-		    ofcb->tab_nb_equ_for_repair == NULL || ofcb->tab_nb_enc_symbols_per_equ == NULL) {
+		    ofcb->tab_nb_equ_for_repair == NULL || ofcb->tab_nb_enc_symbols_per_equ == NULL ||
+		    ofcb->tmp_tab_symbols == NULL) {
 			goto no_mem;
 		}
 		// and update the various tables now
